@@ -16,6 +16,8 @@ package mux
 //@ ghost lastR interface{}
 //@ ghost lastErr error
 //@ ghost replies int
+// storeCalls: number of store callback invocations made by the goroutine under consideration
+//@ ghost storeCalls int
 //
 // coherence: whatever the cache holds for a key is what the store holds for it
 //@ pure coh() bool = storeMap != cacheMap && forall k interface{} :: { has(cacheMap, k) } has(cacheMap, k) ==> has(storeMap, k) && cacheMap[k] == storeMap[k]
@@ -81,28 +83,33 @@ package mux
 //@ func funcval op.loadFn
 //@   trusted store callback
 //@   ensures #loaded err == nil ==> has(storeMap, d) && v == storeMap[d]
-//@   modifies
+//@   ensures #counted storeCalls == old(storeCalls) + 1
+//@   modifies storeCalls
 //@ func funcval op.addFn
 //@   trusted store callback (the key of the operation is the ghost curKey)
 //@   ensures #written err == nil ==> has(storeMap, curKey) && storeMap[curKey] == v && storeSameBut(curKey)
 //@   ensures #failed err != nil ==> storeSame()
-//@   modifies entries(storeMap)
+//@   ensures #counted storeCalls == old(storeCalls) + 1
+//@   modifies entries(storeMap), storeCalls
 //@ func funcval op.updFn
 //@   trusted store callback
 //@   ensures #written err == nil ==> has(storeMap, curKey) && storeMap[curKey] == v && storeSameBut(curKey)
 //@   ensures #failed err != nil ==> storeSame()
-//@   modifies entries(storeMap)
+//@   ensures #counted storeCalls == old(storeCalls) + 1
+//@   modifies entries(storeMap), storeCalls
 //@ func funcval op.upsertFn
 //@   trusted store callback; the returned value is the stored one only when the existing item e it was given is the stored one
 //@   ensures #written err == nil ==> has(storeMap, curKey) && storeSameBut(curKey)
 //@   ensures #merged err == nil && old(has(storeMap, curKey)) && e == old(storeMap[curKey]) ==> storeMap[curKey] == v
 //@   ensures #failed err != nil ==> storeSame()
-//@   modifies entries(storeMap)
+//@   ensures #counted storeCalls == old(storeCalls) + 1
+//@   modifies entries(storeMap), storeCalls
 //@ func funcval op.deleteFn
 //@   trusted store callback
 //@   ensures #deleted result == nil ==> !has(storeMap, d) && storeSameBut(d)
 //@   ensures #failed result != nil ==> storeSame()
-//@   modifies entries(storeMap)
+//@   ensures #counted storeCalls == old(storeCalls) + 1
+//@   modifies entries(storeMap), storeCalls
 //@ func funcval op.isNotFoundFn
 //@   trusted pure classification of an error
 //@   modifies
@@ -127,35 +134,35 @@ package mux
 //@   ensures #dup old(has(cacheMap, op.k)) ==> lastErr == ErrDupKey && storeSame() && cacheSame()
 //@   ensures #value lastErr == nil ==> has(storeMap, op.k) && lastR == storeMap[op.k] && (has(cacheMap, op.k) ==> cacheMap[op.k] == lastR)
 //@   ensures #failed lastErr != nil ==> storeSame() && cacheSame()
-//@   modifies entries(cacheMap), entries(storeMap), lastR, lastErr, replies
+//@   modifies entries(cacheMap), entries(storeMap), lastR, lastErr, replies, storeCalls
 //@ func Worker.handleUpdate
 //@   requires w != nil && c != nil && op != nil && coh() && curKey == op.k
 //@   ensures #coherent coh()
 //@   ensures #once replies == old(replies) + 1
 //@   ensures #value lastErr == nil ==> has(storeMap, op.k) && lastR == storeMap[op.k] && (has(cacheMap, op.k) ==> cacheMap[op.k] == lastR)
 //@   ensures #failed lastErr != nil ==> storeSame() && cacheSame()
-//@   modifies entries(cacheMap), entries(storeMap), lastR, lastErr, replies
+//@   modifies entries(cacheMap), entries(storeMap), lastR, lastErr, replies, storeCalls
 //@ func Worker.handleDelete
 //@   requires w != nil && c != nil && op != nil && coh() && curKey == op.k
 //@   ensures #coherent coh()
 //@   ensures #once replies == old(replies) + 1
 //@   ensures #deleted lastErr == nil ==> !has(cacheMap, op.k) && !has(storeMap, op.k)
 //@   ensures #failed lastErr != nil ==> storeSame() && cacheSame()
-//@   modifies entries(cacheMap), entries(storeMap), lastR, lastErr, replies
+//@   modifies entries(cacheMap), entries(storeMap), lastR, lastErr, replies, storeCalls
 //@ func Worker.handleMixUpdOrAddIfNull
 //@   requires w != nil && c != nil && op != nil && coh() && curKey == op.k
 //@   ensures #coherent coh()
 //@   ensures #once replies == old(replies) + 1
 //@   ensures #value lastErr == nil ==> has(storeMap, op.k) && lastR == storeMap[op.k] && (has(cacheMap, op.k) ==> cacheMap[op.k] == lastR)
 //@   ensures #failed lastErr != nil ==> storeSame() && cacheSame()
-//@   modifies entries(cacheMap), entries(storeMap), lastR, lastErr, replies
+//@   modifies entries(cacheMap), entries(storeMap), lastR, lastErr, replies, storeCalls
 //@ func Worker.handleMixUpsertThenLoad
 //@   requires w != nil && c != nil && op != nil && coh() && curKey == op.k
 //@   ensures #coherent coh()
 //@   ensures #once replies == old(replies) + 1
 //@   ensures #value lastErr == nil ==> has(storeMap, op.k) && lastR == storeMap[op.k] && (has(cacheMap, op.k) ==> cacheMap[op.k] == lastR)
 //@   ensures #failed lastErr != nil ==> cacheSame()
-//@   modifies entries(cacheMap), entries(storeMap), lastR, lastErr, replies
+//@   modifies entries(cacheMap), entries(storeMap), lastR, lastErr, replies, storeCalls
 //@ func Worker.handleMixUpsertThenRenewInCache
 //@   requires w != nil && c != nil && op != nil && coh() && curKey == op.k
 //@   ensures #coherent coh()
@@ -163,7 +170,7 @@ package mux
 //@   ensures #value lastErr == nil ==> has(storeMap, op.k) && (old(has(cacheMap, op.k)) ==> lastR == storeMap[op.k] && (has(cacheMap, op.k) ==> cacheMap[op.k] == lastR))
 //@   ensures #nocache !old(has(cacheMap, op.k)) ==> cacheSame()
 //@   ensures #failed lastErr != nil ==> storeSame() && cacheSame()
-//@   modifies entries(cacheMap), entries(storeMap), lastR, lastErr, replies
+//@   modifies entries(cacheMap), entries(storeMap), lastR, lastErr, replies, storeCalls
 //
 // ---- routing: a key always goes to the same worker, for every hash value ----
 //@ ghost khash int
@@ -183,33 +190,100 @@ package mux
 //@   requires w != nil && c != nil && coh() && ErrDupKey != nil && isop(c.op)
 //@   ensures #coherent coh()
 //@   ensures #once replies == old(replies) + 1
-//@   modifies entries(cacheMap), entries(storeMap), lastR, lastErr, replies
+//@   modifies entries(cacheMap), entries(storeMap), lastR, lastErr, replies, storeCalls
 //
 //@ pure grpwf(w *WorkerGrp) bool = w != nil && w.muxSize > 0 && len(w.ws) == w.muxSize && forall i int :: { w.ws[i] } 0 <= i && i < len(w.ws) ==> w.ws[i] != nil
+// ---- entry points: a Do* call never touches the store from the caller's goroutine (no store callback is invoked:
+// storeCalls is unchanged); it hands exactly one request to the worker's queue - recorded by the queue's AddReq in the
+// ghosts lastAdded/lastQ - carrying the caller's context, a 1-buffered reply channel and the operation built from the
+// caller's own arguments; then it waits for the reply (AsyncC.R: value receive, trusted). DoGet alone may answer from
+// the cache without a request. Thread-local reading: the ghosts describe what THIS goroutine did.
+//@ func AsyncC.R
+//@   trusted value receive on the request's own reply channel or the caller's context error; the waiting goroutine changes nothing
+//@   modifies
+//@ pure wwf(w *Worker) bool = w != nil && w.workQ != nil && w.workQ.reqList != nil && !held(w.workQ.lock) && errsOK()
+//@ pure isreq(x interface{}) bool = tag(x) == tagof(*AsyncC) && *AsyncC(x) != nil
+//@ pure reqOf(x interface{}) *AsyncC = *AsyncC(x)
+//@ func Worker.asyncCall
+//@   requires wwf(w)
+//@   ensures #enqueued isreq(lastAdded) && reqOf(lastAdded).op == op && reqOf(lastAdded).ctx == ctx && chancap(reqOf(lastAdded).rChan) == 1 && lastQ == w.workQ
+//@   ensures #nocallback storeCalls == old(storeCalls)
+//@   modifies lastAdded, lastQ, region($alloc), region($chancap), region($chanlen), region($chanclosed), Q.closed, list.List.lmem, list.List.lcnt, list.Element.lrk, list.Element.Value
 //@ func Worker.DoGet
-//@   trusted enqueue-and-wait through the worker's queue (or the lock-free cache fast path); not under contract
-//@   modifies everything()
+//@   requires wwf(w) && w.ca != nil
+//@   ensures #hit old(has(cacheMap, k)) ==> result0 == cacheMap[k] && result1 == nil && lastAdded == old(lastAdded) && lastQ == old(lastQ)
+//@   ensures #miss !old(has(cacheMap, k)) ==> lastQ == w.workQ && isreq(lastAdded) && reqOf(lastAdded).ctx == ctx && chancap(reqOf(lastAdded).rChan) == 1 && tag(reqOf(lastAdded).op) == tagof(*OpLoad) && *OpLoad(reqOf(lastAdded).op) != nil && (*OpLoad(reqOf(lastAdded).op)).loadFn == loadFn && (*OpLoad(reqOf(lastAdded).op)).k == k
+//@   ensures #nocallback storeCalls == old(storeCalls) && cacheSame()
+//@   modifies lastAdded, lastQ, region($alloc), region($chancap), region($chanlen), region($chanclosed), Q.closed, list.List.lmem, list.List.lcnt, list.Element.lrk, list.Element.Value
 //@ func Worker.DoAdd
-//@   trusted enqueue-and-wait through the worker's queue; not under contract
-//@   modifies everything()
+//@   requires wwf(w)
+//@   ensures #enqueued lastQ == w.workQ && isreq(lastAdded) && reqOf(lastAdded).ctx == ctx && chancap(reqOf(lastAdded).rChan) == 1 && tag(reqOf(lastAdded).op) == tagof(*OpAdd) && *OpAdd(reqOf(lastAdded).op) != nil && (*OpAdd(reqOf(lastAdded).op)).addFn == addFn && (*OpAdd(reqOf(lastAdded).op)).k == k && (*OpAdd(reqOf(lastAdded).op)).data == data
+//@   ensures #nocallback storeCalls == old(storeCalls) && cacheSame()
+//@   modifies lastAdded, lastQ, region($alloc), region($chancap), region($chanlen), region($chanclosed), Q.closed, list.List.lmem, list.List.lcnt, list.Element.lrk, list.Element.Value
 //@ func Worker.DoUpdate
-//@   trusted enqueue-and-wait through the worker's queue; not under contract
-//@   modifies everything()
+//@   requires wwf(w)
+//@   ensures #enqueued lastQ == w.workQ && isreq(lastAdded) && reqOf(lastAdded).ctx == ctx && chancap(reqOf(lastAdded).rChan) == 1 && tag(reqOf(lastAdded).op) == tagof(*OpUpdate) && *OpUpdate(reqOf(lastAdded).op) != nil && (*OpUpdate(reqOf(lastAdded).op)).loadFn == loadFn && (*OpUpdate(reqOf(lastAdded).op)).updFn == updFn && (*OpUpdate(reqOf(lastAdded).op)).k == k && (*OpUpdate(reqOf(lastAdded).op)).data == data
+//@   ensures #nocallback storeCalls == old(storeCalls) && cacheSame()
+//@   modifies lastAdded, lastQ, region($alloc), region($chancap), region($chanlen), region($chanclosed), Q.closed, list.List.lmem, list.List.lcnt, list.Element.lrk, list.Element.Value
 //@ func Worker.DoDelete
-//@   trusted enqueue-and-wait through the worker's queue; not under contract
-//@   modifies everything()
+//@   requires wwf(w)
+//@   ensures #enqueued lastQ == w.workQ && isreq(lastAdded) && reqOf(lastAdded).ctx == ctx && chancap(reqOf(lastAdded).rChan) == 1 && tag(reqOf(lastAdded).op) == tagof(*OpDelete) && *OpDelete(reqOf(lastAdded).op) != nil && (*OpDelete(reqOf(lastAdded).op)).deleteFn == deleteFn && (*OpDelete(reqOf(lastAdded).op)).k == k
+//@   ensures #nocallback storeCalls == old(storeCalls) && cacheSame()
+//@   modifies lastAdded, lastQ, region($alloc), region($chancap), region($chanlen), region($chanclosed), Q.closed, list.List.lmem, list.List.lcnt, list.Element.lrk, list.Element.Value
+//@ func Worker.DoUpdOrAddIfNull
+//@   requires wwf(w)
+//@   ensures #enqueued lastQ == w.workQ && isreq(lastAdded) && reqOf(lastAdded).ctx == ctx && chancap(reqOf(lastAdded).rChan) == 1 && tag(reqOf(lastAdded).op) == tagof(*OpMixUpdOrAddIfNull) && *OpMixUpdOrAddIfNull(reqOf(lastAdded).op) != nil && (*OpMixUpdOrAddIfNull(reqOf(lastAdded).op)).loadFn == loadFn && (*OpMixUpdOrAddIfNull(reqOf(lastAdded).op)).updFn == updFn && (*OpMixUpdOrAddIfNull(reqOf(lastAdded).op)).addFn == addFn && (*OpMixUpdOrAddIfNull(reqOf(lastAdded).op)).isNotFoundFn == isNotFoundFn && (*OpMixUpdOrAddIfNull(reqOf(lastAdded).op)).k == k && (*OpMixUpdOrAddIfNull(reqOf(lastAdded).op)).data == data
+//@   ensures #nocallback storeCalls == old(storeCalls) && cacheSame()
+//@   modifies lastAdded, lastQ, region($alloc), region($chancap), region($chanlen), region($chanclosed), Q.closed, list.List.lmem, list.List.lcnt, list.Element.lrk, list.Element.Value
+//@ func Worker.DoUpsertThenLoad
+//@   requires wwf(w)
+//@   ensures #enqueued lastQ == w.workQ && isreq(lastAdded) && reqOf(lastAdded).ctx == ctx && chancap(reqOf(lastAdded).rChan) == 1 && tag(reqOf(lastAdded).op) == tagof(*OpMixUpsertThenLoad) && *OpMixUpsertThenLoad(reqOf(lastAdded).op) != nil && (*OpMixUpsertThenLoad(reqOf(lastAdded).op)).upsertFn == upsertFn && (*OpMixUpsertThenLoad(reqOf(lastAdded).op)).loadFn == loadFn && (*OpMixUpsertThenLoad(reqOf(lastAdded).op)).k == k && (*OpMixUpsertThenLoad(reqOf(lastAdded).op)).data == data
+//@   ensures #nocallback storeCalls == old(storeCalls) && cacheSame()
+//@   modifies lastAdded, lastQ, region($alloc), region($chancap), region($chanlen), region($chanclosed), Q.closed, list.List.lmem, list.List.lcnt, list.Element.lrk, list.Element.Value
+//@ func Worker.DoUpsertThenRenewInCache
+//@   requires wwf(w)
+//@   ensures #enqueued lastQ == w.workQ && isreq(lastAdded) && reqOf(lastAdded).ctx == ctx && chancap(reqOf(lastAdded).rChan) == 1 && tag(reqOf(lastAdded).op) == tagof(*OpMixUpsertThenRenewInCache) && *OpMixUpsertThenRenewInCache(reqOf(lastAdded).op) != nil && (*OpMixUpsertThenRenewInCache(reqOf(lastAdded).op)).upsertFn == upsertFn && (*OpMixUpsertThenRenewInCache(reqOf(lastAdded).op)).k == k && (*OpMixUpsertThenRenewInCache(reqOf(lastAdded).op)).data == data
+//@   ensures #nocallback storeCalls == old(storeCalls) && cacheSame()
+//@   modifies lastAdded, lastQ, region($alloc), region($chancap), region($chanlen), region($chanclosed), Q.closed, list.List.lmem, list.List.lcnt, list.Element.lrk, list.Element.Value
+// the group: the request goes to the queue of the worker the key's hash selects (locHash), whatever the hash value
+//@ pure grpwwf(w *WorkerGrp) bool = grpwf(w) && errsOK() && forall i int :: { w.ws[i] } 0 <= i && i < len(w.ws) ==> w.ws[i].workQ != nil && w.ws[i].workQ.reqList != nil && !held(w.ws[i].workQ.lock) && w.ws[i].ca != nil
+//@ pure slot(w *WorkerGrp) int = ite(khash % w.muxSize < 0, -(khash % w.muxSize), khash % w.muxSize)
 //@ func WorkerGrp.DoGet
-//@   requires grpwf(w)
-//@   modifies everything()
+//@   requires grpwwf(w) && k != nil
+//@   ensures #hit old(has(cacheMap, any(k))) ==> result0 == cacheMap[any(k)] && result1 == nil && lastAdded == old(lastAdded) && lastQ == old(lastQ)
+//@   ensures #miss !old(has(cacheMap, any(k))) ==> lastQ == w.ws[slot(w)].workQ && isreq(lastAdded) && reqOf(lastAdded).ctx == ctx && chancap(reqOf(lastAdded).rChan) == 1 && tag(reqOf(lastAdded).op) == tagof(*OpLoad) && *OpLoad(reqOf(lastAdded).op) != nil && (*OpLoad(reqOf(lastAdded).op)).loadFn == loadFn && (*OpLoad(reqOf(lastAdded).op)).k == any(k)
+//@   ensures #nocallback storeCalls == old(storeCalls) && cacheSame()
+//@   modifies lastAdded, lastQ, region($alloc), region($chancap), region($chanlen), region($chanclosed), Q.closed, list.List.lmem, list.List.lcnt, list.Element.lrk, list.Element.Value
 //@ func WorkerGrp.DoAdd
-//@   requires grpwf(w)
-//@   modifies everything()
+//@   requires grpwwf(w) && k != nil
+//@   ensures #enqueued lastQ == w.ws[slot(w)].workQ && isreq(lastAdded) && reqOf(lastAdded).ctx == ctx && chancap(reqOf(lastAdded).rChan) == 1 && tag(reqOf(lastAdded).op) == tagof(*OpAdd) && *OpAdd(reqOf(lastAdded).op) != nil && (*OpAdd(reqOf(lastAdded).op)).addFn == addFn && (*OpAdd(reqOf(lastAdded).op)).k == any(k) && (*OpAdd(reqOf(lastAdded).op)).data == data
+//@   ensures #nocallback storeCalls == old(storeCalls) && cacheSame()
+//@   modifies lastAdded, lastQ, region($alloc), region($chancap), region($chanlen), region($chanclosed), Q.closed, list.List.lmem, list.List.lcnt, list.Element.lrk, list.Element.Value
 //@ func WorkerGrp.DoUpdate
-//@   requires grpwf(w)
-//@   modifies everything()
+//@   requires grpwwf(w) && k != nil
+//@   ensures #enqueued lastQ == w.ws[slot(w)].workQ && isreq(lastAdded) && reqOf(lastAdded).ctx == ctx && chancap(reqOf(lastAdded).rChan) == 1 && tag(reqOf(lastAdded).op) == tagof(*OpUpdate) && *OpUpdate(reqOf(lastAdded).op) != nil && (*OpUpdate(reqOf(lastAdded).op)).loadFn == loadFn && (*OpUpdate(reqOf(lastAdded).op)).updFn == updFn && (*OpUpdate(reqOf(lastAdded).op)).k == any(k) && (*OpUpdate(reqOf(lastAdded).op)).data == data
+//@   ensures #nocallback storeCalls == old(storeCalls) && cacheSame()
+//@   modifies lastAdded, lastQ, region($alloc), region($chancap), region($chanlen), region($chanclosed), Q.closed, list.List.lmem, list.List.lcnt, list.Element.lrk, list.Element.Value
 //@ func WorkerGrp.DoDelete
-//@   requires grpwf(w)
-//@   modifies everything()
+//@   requires grpwwf(w) && k != nil
+//@   ensures #enqueued lastQ == w.ws[slot(w)].workQ && isreq(lastAdded) && reqOf(lastAdded).ctx == ctx && chancap(reqOf(lastAdded).rChan) == 1 && tag(reqOf(lastAdded).op) == tagof(*OpDelete) && *OpDelete(reqOf(lastAdded).op) != nil && (*OpDelete(reqOf(lastAdded).op)).deleteFn == deleteFn && (*OpDelete(reqOf(lastAdded).op)).k == any(k)
+//@   ensures #nocallback storeCalls == old(storeCalls) && cacheSame()
+//@   modifies lastAdded, lastQ, region($alloc), region($chancap), region($chanlen), region($chanclosed), Q.closed, list.List.lmem, list.List.lcnt, list.Element.lrk, list.Element.Value
+//@ func WorkerGrp.DoUpdOrAddIfNull
+//@   requires grpwwf(w) && k != nil
+//@   ensures #enqueued lastQ == w.ws[slot(w)].workQ && isreq(lastAdded) && reqOf(lastAdded).ctx == ctx && chancap(reqOf(lastAdded).rChan) == 1 && tag(reqOf(lastAdded).op) == tagof(*OpMixUpdOrAddIfNull) && *OpMixUpdOrAddIfNull(reqOf(lastAdded).op) != nil && (*OpMixUpdOrAddIfNull(reqOf(lastAdded).op)).loadFn == loadFn && (*OpMixUpdOrAddIfNull(reqOf(lastAdded).op)).updFn == updFn && (*OpMixUpdOrAddIfNull(reqOf(lastAdded).op)).addFn == addFn && (*OpMixUpdOrAddIfNull(reqOf(lastAdded).op)).isNotFoundFn == isNotFoundFn && (*OpMixUpdOrAddIfNull(reqOf(lastAdded).op)).k == any(k) && (*OpMixUpdOrAddIfNull(reqOf(lastAdded).op)).data == data
+//@   ensures #nocallback storeCalls == old(storeCalls) && cacheSame()
+//@   modifies lastAdded, lastQ, region($alloc), region($chancap), region($chanlen), region($chanclosed), Q.closed, list.List.lmem, list.List.lcnt, list.Element.lrk, list.Element.Value
+//@ func WorkerGrp.DoUpsertThenLoad
+//@   requires grpwwf(w) && k != nil
+//@   ensures #enqueued lastQ == w.ws[slot(w)].workQ && isreq(lastAdded) && reqOf(lastAdded).ctx == ctx && chancap(reqOf(lastAdded).rChan) == 1 && tag(reqOf(lastAdded).op) == tagof(*OpMixUpsertThenLoad) && *OpMixUpsertThenLoad(reqOf(lastAdded).op) != nil && (*OpMixUpsertThenLoad(reqOf(lastAdded).op)).upsertFn == upsertFn && (*OpMixUpsertThenLoad(reqOf(lastAdded).op)).loadFn == loadFn && (*OpMixUpsertThenLoad(reqOf(lastAdded).op)).k == any(k) && (*OpMixUpsertThenLoad(reqOf(lastAdded).op)).data == data
+//@   ensures #nocallback storeCalls == old(storeCalls) && cacheSame()
+//@   modifies lastAdded, lastQ, region($alloc), region($chancap), region($chanlen), region($chanclosed), Q.closed, list.List.lmem, list.List.lcnt, list.Element.lrk, list.Element.Value
+//@ func WorkerGrp.DoUpsertThenRenewInCache
+//@   requires grpwwf(w) && k != nil
+//@   ensures #enqueued lastQ == w.ws[slot(w)].workQ && isreq(lastAdded) && reqOf(lastAdded).ctx == ctx && chancap(reqOf(lastAdded).rChan) == 1 && tag(reqOf(lastAdded).op) == tagof(*OpMixUpsertThenRenewInCache) && *OpMixUpsertThenRenewInCache(reqOf(lastAdded).op) != nil && (*OpMixUpsertThenRenewInCache(reqOf(lastAdded).op)).upsertFn == upsertFn && (*OpMixUpsertThenRenewInCache(reqOf(lastAdded).op)).k == any(k) && (*OpMixUpsertThenRenewInCache(reqOf(lastAdded).op)).data == data
+//@   ensures #nocallback storeCalls == old(storeCalls) && cacheSame()
+//@   modifies lastAdded, lastQ, region($alloc), region($chancap), region($chanlen), region($chanclosed), Q.closed, list.List.lmem, list.List.lcnt, list.Element.lrk, list.Element.Value
 //
 // the reply channel of a request has room for the one reply, so the worker never blocks on a caller that gave up
 //@ func NewAsync
